@@ -22,7 +22,10 @@ Oracles
 Cases: small-scope enumerations (distribute to every subset of small plates; every ordered pair-of-pairs same-plate transfer;
 first/middle/last well of every geometry 1..16 x {1,2,3,12,24} and troughs 1..16 virtual rows) + seeded random sequences
 biased towards repeated wells, same-labware chains, 2-D / broadcast arguments, volumes 0 / at the limits / far above
-max_volume, dyadic (exact), centi and off-grid volumes (1/3, nextafter).
+max_volume, dyadic (exact), centi and off-grid volumes (1/3, nextafter), component names that collide, troughs built with
+the generic Labware constructor, two labwares created from the same initial_volumes array object.
+Not claimed: a transfer of (almost) exactly k x max_volume for a max_volume that is not a multiple of 1/4 (the last split
+step can come out a few ulp above max_volume and the transfer is refused; round-off of the splitting helper, see C06).
 """
 import hashlib
 import json
@@ -98,6 +101,9 @@ class Lw:
 
     def cname(self, r, c):
         names = self.spec.get("names")
+        if self.trough and self.spec.get("generic"):     # Labware(rows=1, virtual_rows=R): plate-style naming of a one-row labware
+            n = (names or {}).get(wid(0, c))
+            return n if n is not None else self.name
         if self.trough:
             n = names[c] if names else None
             return n if n is not None else (f"{self.name}.column_{c + 1:02d}" if self.C > 1 else self.name)
@@ -336,12 +342,21 @@ def apply_plan(P, model):
 
 
 # ------------------------------------------------------------------ running the real thing
-def build(spec):
+def build(spec, arrays):
+    """arrays: float64 arrays already handed to earlier labwares; `init_ref` re-uses such an array object (as user scripts do)"""
+    kw = dict(min_volume=spec["min"], max_volume=spec["max"])
+    if spec.get("init_ref") is not None:
+        init = arrays[spec["init_ref"]]
+    elif spec["trough"] and not spec.get("as_array"):
+        init = list(spec["init"])
+    else:
+        init = np.array(spec["init"], dtype=float)
+    arrays.append(init)
+    if spec["trough"] and spec.get("generic"):
+        return robotools.Labware(spec["name"], 1, spec["cols"], virtual_rows=spec["rows"], initial_volumes=init, component_names=spec.get("names"), **kw)
     if spec["trough"]:
-        return robotools.Trough(spec["name"], spec["rows"], spec["cols"], min_volume=spec["min"], max_volume=spec["max"],
-                                initial_volumes=list(spec["init"]), column_names=spec.get("names"))
-    return robotools.Labware(spec["name"], spec["rows"], spec["cols"], min_volume=spec["min"], max_volume=spec["max"],
-                             initial_volumes=np.array(spec["init"], dtype=float), component_names=spec.get("names"))
+        return robotools.Trough(spec["name"], spec["rows"], spec["cols"], initial_volumes=init, column_names=spec.get("names"), **kw)
+    return robotools.Labware(spec["name"], spec["rows"], spec["cols"], initial_volumes=init, component_names=spec.get("names"), **kw)
 
 
 def run_op(wl, labs, op, tipfrac):
@@ -509,7 +524,8 @@ def compare(sim, model, labs, specs, exact, full):
 def check_case(case):
     """-> (list of failure strings, number of operations that succeeded, number of pipetting records)"""
     device, wlc, specs = case["device"], case["wl"], case["labwares"]
-    labs = [build(s) for s in specs]
+    arrays = []
+    labs = [build(s, arrays) for s in specs]
     wl = DEVICES[device](max_volume=wlc["max_volume"], auto_split=wlc["auto_split"], diti_mode=wlc.get("diti_mode", False))
     sim = Sim(specs, device)
     model = {s["name"]: Lw(s, device) for s in specs}
@@ -608,7 +624,14 @@ def gen_labwares(rng, grid, wmax, need_trough=False):
                 pool = ["water", "acid", name, f"{name}.A01", "T"]
                 names = {wid(r, c): (rng.choice(pool) if mode == "collide" else f"L{r}_{c}")
                          for r in range(R) for c in range(C) if init[r][c] > 0 and rng.random() < 0.8}
-        specs.append(dict(name=name, trough=trough, rows=R, cols=C, min=vmin, max=vmax, init=init, names=names))
+        spec = dict(name=name, trough=trough, rows=R, cols=C, min=vmin, max=vmax, init=init, names=names)
+        if trough and rng.random() < 0.15:      # a trough built with the generic constructor
+            spec.update(generic=True, names={wid(0, c): n for c, n in enumerate(names) if n is not None} if names else None)
+        specs.append(spec)
+    if rng.random() < 0.12:                     # a second labware created from the very same initial_volumes array object
+        i = rng.randrange(len(specs))
+        specs[i]["as_array"] = True
+        specs.append(dict(specs[i], name=specs[i]["name"] + "_b", init_ref=i))
     return specs
 
 
